@@ -65,9 +65,9 @@ def insertById (x : Nat × String) : List (Nat × String) → List (Nat × Strin
   | [] => [x]
   | y :: ys => if x.1 ≤ y.1 then x :: y :: ys else y :: insertById x ys
 
-def showObsS (c : Cfg) (ord : Order) (outs : List Out) : String :=
+def showObsS (c : Cfg) (ord : Order) (outs : List Out) (extra : List (Nat × String) := []) : String :=
   let toks := sortStrings ((orderTokens ord).map (·.1))
-  let resps := (outs.filterMap fun o => match o with
+  let resps := (extra ++ outs.filterMap fun o => match o with
     | .resp i r => some (i.id, showResp c r)
     | _ => none).foldr insertById []
   let pays := outs.filterMap fun o => match o with
@@ -79,6 +79,20 @@ structure Cand where
   s : SState
   ord : Order
   outs : List Out
+  extra : List (Nat × String) := []     -- answers given outside the per-hash component (non-trampoline HTLCs)
+
+/-- The harness attaches an amount TLV iff the invoice is amountless or the requested amount differs
+    from the invoice's 1 000 000 msat. `none`: the amounts cannot be reconciled (M3 `reconcileAmount`),
+    the HTLC is not a trampoline payment and is answered `continue` at once. -/
+def arrivalAmount (hasAmount : Bool) (a : Nat) : Option Nat :=
+  let inv : Option Nat := if hasAmount then some 1000000 else none
+  let tlv : Option Nat := if !hasAmount then some a else if a ≠ 1000000 then some a else none
+  reconcileAmount inv tlv
+
+def arAmount (tok : String) : Option Nat :=
+  match (tok.drop 3).toString.splitOn ":" with
+  | [_, a, _, _, _, _] => a.toNat?
+  | _ => none
 
 /-- plugin-internal actions enabled in `s` -/
 def internalActs : List SAct := [.timerFire, .takeFail, .takeReady, .readParams, .readHeight]
@@ -143,6 +157,12 @@ def tokenActs (hasAmount : Bool) (x : Cand) (tok : String) : Option (List SAct) 
 
 def stepCands (c : Cfg) (v : SVariant) (hasAmount : Bool) (cands : List Cand) (tok : String) : Option (List Cand) := do
   let mut out : List Cand := []
+  if tok.startsWith "ar:" then
+    match arAmount tok with
+    | some a =>
+      if (arrivalAmount hasAmount a).isNone then
+        return cands.map fun x => { x with s := { x.s with nextInv := x.s.nextInv + 1 }, outs := [], extra := [(x.s.nextInv, "cont:-")] }
+    | none => pure ()
   for x in cands do
     let acts ← tokenActs hasAmount x tok
     for a in acts do
@@ -162,11 +182,11 @@ def runSys (c : Cfg) (v : SVariant) (hasAmount : Bool) : List Cand → List Stri
     match stepCands c v hasAmount cands tok with
     | none => acc ++ s!" | <unparsable action {tok}>"
     | some nexts =>
-      let good := nexts.filter fun x => showObsS c x.ord x.outs == ob
+      let good := nexts.filter fun x => showObsS c x.ord x.outs x.extra == ob
       if good.isEmpty then
         let alt := match nexts with
           | [] => s!"<model cannot take step {n} `{tok}`>"
-          | x :: _ => s!"<step {n} `{tok}`: model {showObsS c x.ord x.outs}>"
+          | x :: _ => s!"<step {n} `{tok}`: model {showObsS c x.ord x.outs x.extra}>"
         acc ++ " | " ++ alt
       else runSys c v hasAmount good toks obs (n + 1) (acc ++ " | " ++ ob)
 
